@@ -498,8 +498,12 @@ func c19ResultSet(t *rapid.T) {
 				if math.IsNaN(w) {
 					continue
 				}
+				// rounding predicate with tolerances that scale with the magnitude (float64 has ~16 digits: at
+				// |w| = 1e9 and 4 decimals the product w*10^p is only exact to about 1e-3)
 				scale := math.Pow(10, float64(precision))
-				if math.Abs(x-w) > 0.5/scale+1e-12 || math.Abs(x*scale-math.Round(x*scale)) > 1e-6 {
+				tolDiff := 0.5/scale + 8*math.Abs(w)*2.3e-16 + 1e-12
+				tolInt := math.Max(1e-6, 16*math.Abs(x*scale)*2.3e-16)
+				if math.Abs(x-w) > tolDiff || math.Abs(x*scale-math.Round(x*scale)) > tolInt {
 					t.Fatalf("column %q row %d: %v is not %v rounded to %d decimals\n%s", c.Name, r, x, w, precision, desc())
 				}
 			}
